@@ -15,9 +15,18 @@ def main():
     mod = importlib.import_module(a.prop.lower())
     if a.replay:
         rep = json.load(open(a.replay))
-        if not hasattr(mod, "replay"):
-            print("replay not supported for", a.prop); return 2
-        still = mod.replay(rep)
+        if hasattr(mod, "replay"):
+            still = mod.replay(rep)
+        else:
+            # generic replay: re-run the generation that produced the case (same seed and tier) on the current tree and
+            # look for the same failure signature (or, for an obligation replay, for any broken obligation / disagreement)
+            ctx = Ctx(a.prop, rep.get("tier", "quick"), int(rep.get("seed", 0)))
+            ctx.replay_mode = True
+            mod.run(ctx)
+            if rep.get("kind") == "input":
+                still = any(f["signature"] == rep.get("signature") for f in ctx.oracle_fail)
+            else:
+                still = bool(ctx.broken or ctx.diffs or ctx.oracle_fail)
         print("REPLAY %s: %s" % (a.replay, "still fails" if still else "passes"))
         return 1 if still else 0
     ctx = Ctx(a.prop, tier, seed)
